@@ -38,6 +38,9 @@ type fsHarness struct {
 	foreign  bool
 	lastOK   bool
 	base     string
+	// bytes acknowledged since the sink last opened a file, tracked independently of the sink's own
+	// counter (-1: unknown after a failed call)
+	sinceOpen int64
 }
 
 func (h *fsHarness) oracle(f string, a ...any) {
@@ -255,6 +258,7 @@ func (h *fsHarness) reset(f []string) {
 	h.diverged = false
 	h.foreign = false
 	h.lastOK = false
+	h.sinceOpen = 0
 }
 
 func (h *fsHarness) exec(line string) (string, string) {
@@ -314,12 +318,35 @@ func (h *fsHarness) exec(line string) (string, string) {
 		if rotated {
 			h.st.hit("write:rotated")
 		}
+		// the exported counter describes the active file: bytes written since it was opened
+		switch {
+		case err != nil:
+			h.sinceOpen = -1
+		case rotated:
+			h.sinceOpen = int64(size)
+		case h.sinceOpen >= 0:
+			h.sinceOpen += int64(size)
+		}
+		if err == nil && h.sinceOpen >= 0 && h.sink.BytesWritten != h.sinceOpen {
+			h.oracle("C15 BytesWritten=%d but %d bytes were written since the active file was opened", h.sink.BytesWritten, h.sinceOpen)
+		}
 		h.lastOK = err == nil
 		h.checkFiles(rotated && err == nil)
 		return fmt.Sprintf("write %d %d %d", id, size, elapsed), res + h.listing()
 	case "reopen":
+		tReopen := time.Now()
 		if err := h.sink.Reopen(); err != nil {
 			h.oracle("C08 Reopen failed: %v", err)
+			h.sinceOpen = -1
+		} else {
+			// Reopen opens a file (a new one, or the existing one again): the counters start afresh
+			h.sinceOpen = 0
+			if h.sink.BytesWritten != 0 {
+				h.oracle("C15 BytesWritten=%d right after Reopen: the counter does not describe the file just opened", h.sink.BytesWritten)
+			}
+			if h.sink.LastCreated.Before(tReopen) {
+				h.oracle("C15 LastCreated predates the Reopen that opened the active file")
+			}
 		}
 		h.lastOK = true
 		h.checkFiles(false)
